@@ -61,6 +61,12 @@ fn setup(s: &J) -> Result<(Setup, J), csl::JsError> {
         tb.add_output(&out)?;
         outs.push(jvalue(&val));
     }
+    // an implicit input (reward withdrawal): lovelace the builder holds without any UTxO
+    if let Some(w) = s.get("wd").and_then(|x| x.as_u64()) { if w > 0 {
+        let mut wd = csl::Withdrawals::new();
+        wd.insert(&csl::RewardAddress::new(0, &csl::Credential::from_keyhash(&mk::keyhash(150))), &csl::BigNum::from(w * unit));
+        tb.set_withdrawals(&wd);
+    } }
     let mut offered = csl::TransactionUnspentOutputs::new();
     let mut offered_pts = vec![];
     for (i, v) in s["utxos"].as_array().unwrap_or(&empty).iter().enumerate() {
@@ -185,8 +191,10 @@ fn gen(rng: &mut Rng) -> J {
     let pre: Vec<J> = (0..np).map(|_| json!(1 + rng.below(3))).collect();
     // amounts near the fee boundary: unit 1 ADA, or small units so that fees matter
     let unit = *rng.pick(&[1_000_000u64, 1_000_000, 200_000, 170_000]);
+    // sometimes a withdrawal already covers (part of) the lovelace need, so that only assets - or nothing - remain to be selected
+    let wd = if rng.chance(1, 4) { 1 + rng.below(12) } else { 0 };
     json!({"strat": strat, "mode": "explore", "unit": unit, "a": *rng.pick(&[44u64, 44, 0, 500]), "b": 155381, "cpb": 0,
-           "utxos": utxos, "outs": outs, "pre": pre, "distinct_addrs": rng.chance(1, 3), "max_leaves": 1500})
+           "utxos": utxos, "outs": outs, "pre": pre, "wd": wd, "distinct_addrs": rng.chance(1, 3), "max_leaves": 1500})
 }
 
 pub fn main(a: &Args) {
